@@ -1,5 +1,6 @@
 import BM.Sanitize
-import BM.Gen.Defaults
+import BM.Shipped
+import BM.Gen.Shipped
 /- Canonical text encodings shared with go/bmx (hex fields, `-` = empty). -/
 namespace BM.Driver
 open BM BM.Html
@@ -127,11 +128,6 @@ def parseOp (s : String) : Option BuilderOp :=
 def parseOps (s : String) : Option (List BuilderOp) :=
   if s == "-" then some [] else (s.splitOn "!").mapM parseOp
 
-/-- `NewPolicy()` with the regenerated default tables -/
-def newPolicy : Policy :=
-  { setOfElementsAllowedWithoutAttrs := Gen.defaultNoAttrs
-    setOfElementsToSkipContent := Gen.defaultSkipContent }
-
 /-! ### policy dump in the format of `Policy.VerifDump` -/
 
 def sortStrings (xs : List String) : List String := (xs.toArray.qsort (· < ·)).toList
@@ -140,28 +136,36 @@ def flagCh (b : Bool) : String := if b then "1" else "0"
 
 def hexKey (b : Bytes) : String := hexStr b
 
-def dumpAttrPolicies (aps : List AttrPolicy) : String :=
+def dumpAttrPolicies (nm : Pat → String) (aps : List AttrPolicy) : String :=
   String.intercalate "," (aps.map fun ap => match ap with
     | none => "*"
-    | some r => "r" ++ toString r.id)
+    | some r => nm r)
 
-def dumpAttrRules (m : AttrRules) : String :=
+def dumpAttrRules (nm : Pat → String) (m : AttrRules) : String :=
   "{" ++ String.intercalate ";" (sortStrings (m.map fun (k, v) =>
-    hexKey k ++ "=[" ++ dumpAttrPolicies v ++ "]")) ++ "}"
+    hexKey k ++ "=[" ++ dumpAttrPolicies nm v ++ "]")) ++ "}"
 
-def dumpStylePolicies (sps : List StylePolicy) : String :=
+def dumpStylePolicies (nm : Pat → String) (sps : List StylePolicy) : String :=
   String.intercalate "," (sps.map fun sp =>
     if sp.handler.isSome then "h"
     else if sp.enum.length > 0 then "e(" ++ String.intercalate "|" (sp.enum.map hexKey) ++ ")"
     else match sp.re with
-      | some r => "r" ++ toString r.id
+      | some r => nm r
       | none => "0")
 
-def dumpStyleRules (m : StyleRules) : String :=
+def dumpStyleRules (nm : Pat → String) (m : StyleRules) : String :=
   "{" ++ String.intercalate ";" (sortStrings (m.map fun (k, v) =>
-    hexKey k ++ "=[" ++ dumpStylePolicies v ++ "]")) ++ "}"
+    hexKey k ++ "=[" ++ dumpStylePolicies nm v ++ "]")) ++ "}"
 
-def dumpPolicy (p : Policy) : String :=
+def nameById (r : Pat) : String := "r" ++ toString r.id
+
+/-- regexps named by (hex of) their source, for the shipped policies -/
+def nameBySource (r : Pat) : String :=
+  match Gen.reSources.find? (·.1 == r.id) with
+  | some (_, src) => "s" ++ src
+  | none => "s?"
+
+def dumpPolicyWith (nm : Pat → String) (p : Policy) : String :=
   "flags=" ++ flagCh p.addSpaces ++ flagCh p.requireNoFollow ++
     flagCh p.requireNoFollowFullyQualifiedLinks ++ flagCh p.requireNoReferrer ++
     flagCh p.requireNoReferrerFullyQualifiedLinks ++ flagCh p.requireCrossOriginAnonymous ++
@@ -172,21 +176,31 @@ def dumpPolicy (p : Policy) : String :=
    | none => " sandbox=nil"
    | some vs => " sandbox=[" ++ String.intercalate "," (sortStrings (vs.eraseDups.map hexKey)) ++ "]") ++
   " els=" ++ String.join ((sortStrings (p.elsAndAttrs.map fun (k, v) =>
-      hexKey k ++ ":" ++ dumpAttrRules v ++ " "))) ++
+      hexKey k ++ ":" ++ dumpAttrRules nm v ++ " "))) ++
   " elsm=" ++ String.intercalate " " (sortStrings (p.elsMatchingAndAttrs.map fun (r, m) =>
-      "r" ++ toString r.id ++ ":" ++ dumpAttrRules m)) ++
-  " gattrs=" ++ dumpAttrRules p.globalAttrs ++
+      nm r ++ ":" ++ dumpAttrRules nm m)) ++
+  " gattrs=" ++ dumpAttrRules nm p.globalAttrs ++
   " styles=" ++ String.join ((sortStrings (p.elsAndStyles.map fun (k, v) =>
-      hexKey k ++ ":" ++ dumpStyleRules v ++ " "))) ++
+      hexKey k ++ ":" ++ dumpStyleRules nm v ++ " "))) ++
   " stylesm=" ++ String.intercalate " " (sortStrings (p.elsMatchingAndStyles.map fun (r, m) =>
-      "r" ++ toString r.id ++ ":" ++ dumpStyleRules m)) ++
-  " gstyles=" ++ dumpStyleRules p.globalStyles ++
+      nm r ++ ":" ++ dumpStyleRules nm m)) ++
+  " gstyles=" ++ dumpStyleRules nm p.globalStyles ++
   " schemes=" ++ String.join (sortStrings (p.allowURLSchemes.map fun (k, v) =>
       hexKey k ++ ":" ++ toString v.length ++ ",")) ++
-  " schemere=" ++ String.intercalate "," (p.allowURLSchemeRegexps.map fun r => "r" ++ toString r.id) ++
+  " schemere=" ++ String.intercalate "," (p.allowURLSchemeRegexps.map nm) ++
   " noattrs=" ++ String.intercalate "," (sortStrings (p.setOfElementsAllowedWithoutAttrs.map hexKey)) ++
-  " noattrsm=" ++ String.intercalate "," (p.setOfElementsMatchingAllowedWithoutAttrs.map fun r =>
-      "r" ++ toString r.id) ++
+  " noattrsm=" ++ String.intercalate "," (p.setOfElementsMatchingAllowedWithoutAttrs.map nm) ++
   " skip=" ++ String.intercalate "," (sortStrings (p.setOfElementsToSkipContent.map hexKey))
+
+def dumpPolicy (p : Policy) : String := dumpPolicyWith nameById p
+
+/-- the shipped policies by protocol name -/
+def shippedPolicy (name : String) : Option Policy :=
+  match name with
+  | "@STRICT" => some strictPolicy
+  | "@UGC" => some Gen.ugcPolicy
+  | "@CMDUGC" => some Gen.cmdUgcPolicy
+  | "@CMDEMAIL" => some Gen.cmdHtmlEmailPolicy
+  | _ => none
 
 end BM.Driver
